@@ -25,16 +25,28 @@ RULE = ("every (topology, #outputs, N, root, family of destination sets) is one 
         "states = handler invocations (root activation + one propagate per delivered message), transitions = messages; a case is "
         "non-trivial when a relay (non-root) sends a message or the root sends >= 2; distinct outcomes = distinct (root, ordered message "
         "list with payloads) signatures")
-FINDING = 'C13-chain-relay-missing-output'
+FINDINGS = {1: 'C13-chain-relay-missing-output', 2: 'C13-binomial-relay-missing-output'}   # topology number -> known_findings id
 HERE = os.path.dirname(os.path.abspath(__file__))
 
 
-def known_entry_present():
+def known_topologies():
+    """Bit mask of the topologies whose lost (rank, output) pairs may be attributed to a recorded finding.
+    An entry covers its own topology; an entry may also list several in an optional key "topologies": ["chain", "binomial"]."""
     path = os.environ.get('VERIF_KNOWN_FINDINGS', '/verif/known_findings.json')
     try:
-        return any(f.get('id') == FINDING and f.get('property') == 'C13' for f in json.load(open(path)).get('findings', []))
+        entries = [f for f in json.load(open(path)).get('findings', []) if f.get('property') == 'C13']
     except (OSError, ValueError):
-        return False
+        return 0
+    mask = 0
+    names = {'chain': 1, 'binomial': 2}
+    for f in entries:
+        for t, fid in FINDINGS.items():
+            if f.get('id') == fid:
+                mask |= 1 << t
+                for n in f.get('topologies', []):
+                    if n in names:
+                        mask |= 1 << names[n]
+    return mask
 
 
 def build(ctx):
@@ -43,7 +55,7 @@ def build(ctx):
 
 def check(ctx):
     quick = ctx.tier == 'quick'
-    known = known_entry_present()
+    known = known_topologies()
     exe = build(ctx)
     if quick:
         plan = '1:2-6,2:2-6,3:2-4,2:2-5:1,2:2-5:2'
@@ -54,13 +66,15 @@ def check(ctx):
                 '1:31-34:0:3,1:63-66:0:2,2:32-34:0:1,2:33-33:0:2,3:33-33:0:1')
         deadline = 330
     for topo in (0, 1, 2):
-        ctx.run_engine(exe, ['--topo', str(topo), '--plan', plan, '--known', '1' if known else '0', '--outdir', '/verif/out',
+        ctx.run_engine(exe, ['--topo', str(topo), '--plan', plan, '--known-topos', str(known), '--outdir', '/verif/out',
                              '--deadline', str(deadline)], label='coll-%s' % ('star', 'chain', 'binomial')[topo], timeout=deadline + 300)
-    ctx.notes.append('known_findings entry %s %s' % (FINDING, 'present' if known else 'ABSENT: every failing case is a violation'))
+    for t, fid in FINDINGS.items():
+        ctx.notes.append('known_findings entry for topology %s (%s): %s' % (('star', 'chain', 'binomial')[t], fid,
+                         'present' if known >> t & 1 else 'ABSENT - every failing case under this topology is a violation'))
     if not quick and not ctx.violations and not ctx.broken:
         sys.path.insert(0, HERE)
         import mp_repro
-        mp_repro.run(ctx, known)
+        mp_repro.run(ctx, known, exe)
     return ctx.finish(RULE, [
         "a process that receives an activation always propagates it (the model does not stall a receiver that waits for a missing output)",
         "payload of a message to peer p = outputs of the sender's outgoing_mask whose rank_bits contain p (rule of remote_dep_mpi_pack_dep)",
@@ -72,5 +86,5 @@ def replay(ctx, path, obj):
     if obj.get('engine') == 'mp':
         sys.path.insert(0, HERE)
         import mp_repro
-        return mp_repro.replay(ctx, path, obj, known_entry_present())
-    return subprocess.call([build(ctx), '--replay', path, '--known', '1' if known_entry_present() else '0'])
+        return mp_repro.replay(ctx, path, obj, known_topologies())
+    return subprocess.call([build(ctx), '--replay', path, '--known-topos', str(known_topologies())])
